@@ -14,6 +14,8 @@ RULE = ('Generated histories of emit(to=sid, callback=cb_k) and call() to '
         'BINARY_ACK frames from any client carrying the outstanding id, an '
         'already used one, a never issued one (0, huge), or one outstanding '
         'for another client / for the same transport on another namespace, '
+        'duplicate ACKs processed while the callback is still running, '
+        'callbacks that raise (contained once, never re-invoked), '
         'and with disconnects (3 kinds) and reconnects; for call(): generated '
         'orders of {right ACK, wrong ACK, client disconnect, timeout}. '
         'Oracle (model of outstanding callbacks per sid): ids unique among a '
